@@ -19,7 +19,7 @@ LEVEL_NOTE = "Trusted: urllib.parse.urlsplit for reading the Location header bac
 RULE = "cases as above; non-trivial = the middleware had a decision to make (headers present / several mounts / cleartext scope)"
 ASSUMPTIONS = ["mounts match by string prefix (statement), not by path segment",
                "RFC 7239 elements are generated in the strict form (no OWS around ';', lower-case parameter names, unquoted)"]
-MIN_DECISIVE = {"proxy-rule": 100, "proxy-no-mutation": 100, "proxy-attacker-prefix": 50, "dispatch-route": 100,
+MIN_DECISIVE = {"composed": 10, "proxy-rule": 100, "proxy-no-mutation": 100, "proxy-attacker-prefix": 50, "dispatch-route": 100,
                 "dispatch-lifespan": 20, "redirect": 100}
 N = {"quick": 4000, "thorough": 60000}
 
@@ -33,8 +33,10 @@ def gen(rng, tier):
             yield _gen_dispatch(rng, i)
         elif r < 0.78:
             yield _gen_lifespan(rng, i)
-        else:
+        elif r < 0.95:
             yield _gen_redirect(rng, i)
+        else:
+            yield _gen_composed(rng, i)
 
 
 _IPS = ["10.0.0.1", "192.0.2.7", "203.0.113.9", "2001:db8::1", "198.51.100.23", "evil"]
@@ -129,7 +131,8 @@ def _gen_redirect(rng, i):
     raw_path = rng.choice([b"/", b"/abc", b"/abc%3C", b"/a/b%20c", b"/%E2%82%AC", b"/a;p=1", b"/~user/", b"/a%2Fb",
                            # targets a URL *resolver* would rewrite: the redirect is to the same path, not to what it resolves to
                            b"//evil.example/login", b"/a/../b", b"/a/./b/", b"/..", b"/a//b", b"/a/..%2f../c"])
-    query = rng.choice([b"", b"x=1", b"a=b&c=d%20e", b"q=%3F"])
+    # (a query is bytes in the scope; over HTTP/2 a client can put any octets there)
+    query = rng.choice([b"", b"x=1", b"a=b&c=d%20e", b"q=%3F", b"q=%3F", b"n=caf\xe9", b"b=\xff\xfe"])
     root = rng.choice(["", "", "/root", "/app/v1"])
     stype = rng.choice(["http", "websocket"])
     scheme = rng.choice(["http", "https"]) if stype == "http" else rng.choice(["ws", "wss"])
@@ -139,6 +142,14 @@ def _gen_redirect(rng, i):
             # earlier requests served by the same middleware instance (other virtual hosts, a forged Host): each request stands alone
             "prior": [{"host": rng.choice(["first.example", "evil.example:81", "example.com"]), "scope_type": rng.choice(["http", "websocket"]),
                        "secure": rng.random() < 0.3} for _ in range(rng.choice([0, 0, 1, 2]))]}
+
+
+def _gen_composed(rng, i):
+    """The documented deployment behind a TLS-terminating proxy: ProxyFixMiddleware(HTTPToHTTPSRedirectMiddleware(app)). The proxy says
+    in X-Forwarded-Proto / Forwarded proto= which scheme the client used (http or https - also for a WebSocket opening, which is a GET
+    to the proxy); the connection from the proxy is cleartext either way."""
+    return {"family": "proxy+redirect", "kind": "composed", "mode": rng.choice(["legacy", "modern"]), "scope_type": rng.choice(["http", "websocket", "websocket"]),
+            "proto": rng.choice(["http", "https"]), "http_version": rng.choice(["1.1", "2"]), "ext": rng.random() < 0.8}
 
 
 # ---- execution ----------------------------------------------------------------------------------
@@ -200,6 +211,11 @@ def run_one(case, tally):
             if exp["host"] is not None:
                 want["host"] = [exp["host"].encode()]
         gv = view(got)
+        if case["scope_type"] == "websocket" and exp is not None and exp["scheme"] is not None:
+            # the value comes from the trusted element either way; for a WebSocket scope it may be given in the scope's own vocabulary
+            # (proxies report http/https for the opening request, the scope says ws/wss)
+            if gv["scheme"] == {"http": "ws", "https": "wss"}.get(exp["scheme"].lower()):
+                want["scheme"] = gv["scheme"]
         if gv != want:
             findings.append({"clause": "proxy-rule", "sig": "C20.proxy/%s/rule" % case["mode"],
                              "detail": "mode %s hops %d headers %r: got %r, trust rule says %r" % (case["mode"], case["hops"], _proxy_headers(case, case["elems"]), gv, want)})
@@ -216,9 +232,56 @@ def run_one(case, tally):
         findings += _dispatch(case, tally)
     elif kind == "lifespan":
         findings += _lifespan(case, tally)
+    elif kind == "composed":
+        findings += _composed(case, tally)
     else:
         findings += _redirect(case, tally)
     return findings, [None]
+
+
+def _composed(case, tally):
+    from hypercorn.middleware import HTTPToHTTPSRedirectMiddleware, ProxyFixMiddleware
+
+    called, sent = [], []
+
+    async def inner(scope, receive, send):
+        called.append(scope)
+
+    async def send(m):
+        sent.append(m)
+
+    ws = case["scope_type"] == "websocket"
+    hdrs = [(b"host", b"internal:8000"), (b"user-agent", b"x")]
+    if case["mode"] == "legacy":
+        hdrs += [(b"x-forwarded-for", b"203.0.113.9"), (b"x-forwarded-proto", case["proto"].encode()), (b"x-forwarded-host", b"public.example")]
+    else:
+        hdrs += [(b"forwarded", b"for=203.0.113.9;proto=%s;host=public.example" % case["proto"].encode())]
+    scope = {"type": case["scope_type"], "scheme": "ws" if ws else "http", "http_version": case["http_version"], "path": "/chat", "raw_path": b"/chat",
+             "query_string": b"room=1", "root_path": "", "client": ("10.0.0.2", 4000), "server": ("10.0.0.1", 8000), "headers": hdrs,
+             "extensions": {"websocket.http.response": {}} if (ws and case["ext"]) else {}}
+    mw = ProxyFixMiddleware(HTTPToHTTPSRedirectMiddleware(inner, None), mode=case["mode"], trusted_hops=1)
+    asyncio.run(mw(scope, None, send))
+    tally.clause("composed")
+    out = []
+    if case["proto"] == "https":
+        if len(called) != 1 or sent:
+            out.append({"clause": "composed", "sig": "C20.composed/secure-not-passed-through",
+                        "detail": "the client used %s towards the proxy: application called %d times, sent %r" % (case["proto"], len(called), sent)})
+        return out
+    if called:
+        out.append({"clause": "composed", "sig": "C20.composed/cleartext-%s-passed" % case["scope_type"],
+                    "detail": "a %s request the client made over cleartext (proxy says proto=http) reached the application with scheme %r instead of being redirected"
+                    % (case["scope_type"], called[0].get("scheme"))})
+        return out
+    if ws and not case["ext"]:
+        if [m.get("type") for m in sent] != ["websocket.close"]:
+            out.append({"clause": "composed", "sig": "C20.composed/ws-no-extension", "detail": "sent %r" % sent})
+        return out
+    loc = [v for n, v in (sent[0].get("headers", []) if sent else []) if n == b"location"]
+    want = (b"https" if (not ws or case["http_version"] == "2") else b"wss") + b"://public.example/chat?room=1"
+    if not sent or sent[0].get("status") not in (301, 302, 307, 308) or loc != [want]:
+        out.append({"clause": "composed", "sig": "C20.composed/location", "detail": "sent %r, expected a redirect to %r" % (sent, want)})
+    return out
 
 
 def call_with(case, c2, elems, inner, seen):
@@ -416,7 +479,12 @@ def _redirect(case, tally):
         called.clear()
         await mw(scope, None, send)
 
-    asyncio.run(session())
+    try:
+        asyncio.run(session())
+    except Exception as e:
+        tally.clause("redirect")
+        return [{"clause": "redirect", "sig": "C20.redirect/raised-%s" % type(e).__name__,
+                 "detail": "%s request, raw_path %r, query %r: the middleware raised %r instead of redirecting" % (case["scope_type"], case["raw_path"], case["query"], e)}]
     tally.clause("redirect")
     secure = case["scheme"] in ("https", "wss")
     if secure:
@@ -437,13 +505,16 @@ def _redirect(case, tally):
     if sent[0].get("status") not in (301, 302, 307, 308) or len(loc) != 1:
         out.append({"clause": "redirect", "sig": "C20.redirect/not-a-redirect", "detail": "%r" % sent})
         return out
+    if case["query"] and not loc[0].endswith(b"?" + case["query"]):
+        out.append({"clause": "redirect", "sig": "C20.redirect/location", "detail": "Location %r does not end with the query %r" % (loc[0], case["query"])})
+        return out
     u = urlsplit(loc[0].decode("latin-1"))
     want_scheme = "https" if case["scope_type"] == "http" or case["http_version"] == "2" else "wss"
     want_host = case["cfg_host"] or case["host"]
     want_path = case["root_path"] + case["raw_path"].decode()
-    if (u.scheme, u.netloc, u.path, u.query) != (want_scheme, want_host, want_path, case["query"].decode()):
+    if (u.scheme, u.netloc, u.path, u.query) != (want_scheme, want_host, want_path, case["query"].decode("latin-1")):
         out.append({"clause": "redirect", "sig": "C20.redirect/location", "detail": "Location %r parses to %r, expected %r" % (
-            loc[0], (u.scheme, u.netloc, u.path, u.query), (want_scheme, want_host, want_path, case["query"].decode()))})
+            loc[0], (u.scheme, u.netloc, u.path, u.query), (want_scheme, want_host, want_path, case["query"].decode("latin-1")))})
     return out
 
 
